@@ -231,9 +231,9 @@ func (srv *simServer) beginForward(batch input.Batch, toks []float32) {
 
 // checkSameBatch: an input with SameBatch = k must be evaluated in one batch with the k inputs
 // that follow it (a vision model lays the image's rows over them in that one graph; cut in
-// two, the model is given a different image). Checked by count only, and only while the
-// sequence still had inputs queued when the batch was closed: what follows an image after a
-// context shift has cut its group is not specified (the TODO at InputCache.ShiftDiscard).
+// two, the model is given a different image). Checked only for groups that are still the
+// ones PostTokenize made: what follows an image after a context shift has cut its group is
+// not specified (the TODO at InputCache.ShiftDiscard).
 func (srv *simServer) checkSameBatch(batch input.Batch) {
 	for _, mi := range batch.Multimodal {
 		p, ok := mi.Multimodal.(imgPayload)
@@ -245,16 +245,36 @@ func (srv *simServer) checkSameBatch(batch input.Batch) {
 			continue
 		}
 		slot := batch.Sequences[mi.Index]
+		toks := batch.Inputs.Floats()
 		have := 0
 		for k := mi.Index + 1; k < len(batch.Sequences) && k <= mi.Index+p.same && batch.Sequences[k] == slot; k++ {
 			have++
 		}
-		if have == p.same {
-			verifsim.Probe("same_batch_group_whole")
+		sq, n := srv.liveFor(slot)
+		if n != 1 {
 			continue
 		}
-		sq, n := srv.liveFor(slot)
-		if n != 1 || len(sq.inputs) == 0 {
+		// Is the group still the one PostTokenize made (the image followed by its own
+		// placeholders)? A context shift or its reprocessing path may have cut it, and what
+		// then follows the image is whatever came later.
+		intact := true
+		for k := 1; k <= p.same; k++ {
+			switch {
+			case k <= have:
+				intact = intact && int32(toks[mi.Index+k]) == imgPadToken
+			case k-have-1 < len(sq.inputs):
+				in := sq.inputs[k-have-1]
+				intact = intact && in.Token == imgPadToken && in.Multimodal == nil
+			default:
+				intact = false
+			}
+		}
+		if !intact {
+			verifsim.Probe("same_batch_group_cut_by_shift")
+			continue
+		}
+		if have == p.same {
+			verifsim.Probe("same_batch_group_whole")
 			continue
 		}
 		srv.w.violate("C07", "same-batch", "same-batch:group-split", "%s: slot %d: the image at batch row %d needs the %d inputs that follow it in its batch, the batch holds %d of them (%d rows in all) although %d further inputs of the sequence were waiting",
